@@ -100,16 +100,10 @@ _cache = {}
 
 
 def verify_body(ctx):
-    f = ctx.fx.fn_opt(VERIFY)
-    if f is None:
+    """REGION of Metablock::verify: module-private helpers inlined, path-sensitive."""
+    if ctx.fx.fn_opt(VERIFY) is None:
         return None
-    k = ("vb", id(ctx.fx))
-    if k not in _cache:
-        b = Body(f)
-        b.enable_path_sensitivity()
-        ctx.touch_body(b)
-        _cache[k] = b
-    return _cache[k]
+    return ctx.region(VERIFY, policy="private", ps=True)
 
 
 def check_verify_payload(ctx, rule):
